@@ -22,7 +22,7 @@ ASSUMPTIONS = ["np.bool_ and np.datetime64 values are not generated (not 'number
                "popitem may return any present item (documented as arbitrary)",
                "for invalid-UTF-8 bytes any exception satisfies 'raises'; for other non-serialisable values TypeError is required"]
 EXHAUSTIVE = None
-MUST_HIT = ['returned-values-mutated-by-caller', 'start:none', 'start:empty', 'start:given', 'start:over-occupant-with-metadata', 'start:copy-over', 'start:empty-over', 'kind:Array', 'kind:Ragged', 'update-empty-on-empty', 'pop-default-on-empty',
+MUST_HIT = ['env:c-locale', 'returned-values-mutated-by-caller', 'start:none', 'start:empty', 'start:given', 'start:over-occupant-with-metadata', 'start:copy-over', 'start:empty-over', 'kind:Array', 'kind:Ragged', 'update-empty-on-empty', 'pop-default-on-empty',
             'last-key-removed', 'val:nparr', 'val:nonascii', 'val:npint', 'val:npfloat', 'val:bytes', 'val:nan', 'bad-update',
             'pop-missing-nodefault', 'del-missing', 'popitem-empty', 'reopen', 'update:kwargs', 'update:pairs']
 KEYS = ['a', 'b', 'ключ', 'k 4']
@@ -253,6 +253,9 @@ def check_accessors(out, md, model, tag, mfile):
 
 
 def execute(ctx, spec):
+    if spec.get('env'):          # a case recorded from a child interpreter under another environment (replay path)
+        from vlib import envrun
+        return envrun.execute_in_env(ctx, 'checks.c13', spec)
     import darr
     out = Outcome()
     kind = spec['kind']
@@ -480,11 +483,23 @@ def task_random(ctx, col, shard, n, max_ops):
     hyp_search(ctx, col, st_case(max_ops), lambda s: execute(ctx, s), shard_seed(ctx, shard), n)
 
 
+def task_locale(ctx, col, n):
+    """A sample of the same cases in a child interpreter whose default text encoding is ASCII (LC_ALL=C, UTF-8 mode off):
+    non-ASCII keys and values must round-trip there too."""
+    from vlib import envrun
+    from vlib.runner import hyp_collect
+    fixed = [{'kind': k, 'start': 'given', 'given': [['ключ', {'t': 'str', 'v': 'é日本€'}], ['a', {'t': 'list', 'v': [{'t': 'str', 'v': 'ü'}]}]],
+              'ops': [{'o': 'set', 'k': 'b', 'v': {'t': 'str', 'v': 'grüß'}}, {'o': 'reopen'}, {'o': 'pop', 'k': 'a', 'd': 'no'},
+                      {'o': 'update', 'form': 'dict', 'items': [['k 4', {'t': 'dict', 'v': [['ö', {'t': 'str', 'v': '日'}]]}]]}, {'o': 'popitem'}]}
+             for k in ('Array', 'Ragged')]
+    envrun.run_specs(ctx, col, 'checks.c13', fixed + hyp_collect(st_case(12), shard_seed(ctx, 78), n), 'c-locale')
+
+
 def tasks(ctx):
     global EXHAUSTIVE
     L = ctx.pick(3, 4)
     EXHAUSTIVE = f"all op sequences of length <= {L} over the 9-op alphabet from 3 start configurations"
-    t = []
+    t = [(task_locale, dict(n=ctx.pick(80, 1000)))]
     for sh in range(NSHARDS):
         t.append((task_enum, dict(shard=sh, L=L)))
         t.append((task_random, dict(shard=sh, n=ctx.pick(150, 2000), max_ops=ctx.pick(20, 50))))
